@@ -462,4 +462,72 @@ theorem double_slash_witness :
       parsePatternOld [] p.toBytes = some p' ∧ p.matches l ≠ p'.matches l :=
   ⟨⟨[97, 47], [120], false⟩, ⟨[97], [120], false⟩, ⟨[97, 47], [120]⟩, by decide, by decide, by decide⟩
 
+/-! ### Algebra of pattern sets and of label spellings (added in the continuation round) -/
+
+/-- A label has one canonical spelling: two well-formed labels that print the same are the same label.
+    (Consequence of the round trip; the hypotheses are those `parsed_label_ok` establishes.) -/
+theorem label_print_injective (l₁ l₂ : Label)
+    (hp₁ : cColon ∉ l₁.pkg) (hn₁ : validName l₁.name = true)
+    (hp₂ : cColon ∉ l₂.pkg) (hn₂ : validName l₂.name = true)
+    (h : l₁.toBytes = l₂.toBytes) : l₁ = l₂ := by
+  have h₁ := parse_print_label [] l₁ hp₁ hn₁
+  have h₂ := parse_print_label [] l₂ hp₂ hn₂
+  rw [h, h₂] at h₁
+  exact (Option.some.inj h₁).symm
+
+example : (Label.mk [97] [98]).toBytes ≠ (Label.mk [97, 58] [98]).toBytes := by decide
+
+/-- A pattern set is the union of its patterns: matching `ps ++ qs` is matching `ps` or matching `qs`
+    (so the order and grouping of command-line patterns cannot change what is selected). -/
+theorem matchesAny_append (ps qs : List Pattern) (t : Label) :
+    matchesAny (ps ++ qs) t = (matchesAny ps t || matchesAny qs t) := by
+  simp [matchesAny, List.any_append]
+
+/-- … and is insensitive to the order of the patterns. -/
+theorem matchesAny_perm (ps qs : List Pattern) (t : Label) (h : ps.Perm qs) :
+    matchesAny ps t = matchesAny qs t := by
+  simp only [matchesAny]
+  induction h with
+  | nil => rfl
+  | cons x _ ih => simp [List.any_cons, ih]
+  | swap x y l => simp only [List.any_cons]; cases x.matches t <;> cases y.matches t <;> rfl
+  | trans _ _ ih₁ ih₂ => exact ih₁.trans ih₂
+
+/-- the match-all pattern (no argument on the command line) matches every label -/
+theorem matchAll_matches (t : Label) : matchAllPattern.matches t = true := by
+  simp [matchAllPattern, Pattern.matches]
+
+/-- the pattern made from a label matches that label -/
+theorem patternFromLabel_matches_self (l : Label) : (patternFromLabel l).matches l = true := by
+  simp [patternFromLabel, Pattern.matches]
+
+/-- Recursive patterns are monotone in their prefix: if `q` is `p` or lies below `p` (`p/` is a prefix of
+    `q`), everything `//q/...:tp` matches is matched by `//p/...:tp`. -/
+theorem recursive_subsumes (p q tp : Bytes) (t : Label)
+    (h : q = p ∨ (p ++ [cSlash]) <+: q)
+    (hm : (Pattern.mk q tp true).matches t = true) : (Pattern.mk p tp true).matches t = true := by
+  rcases h with rfl | hpre
+  · exact hm
+  · simp only [Pattern.matches, Bool.and_eq_true, Bool.or_eq_true, if_true] at hm ⊢
+    refine ⟨?_, hm.2⟩
+    have hq : q.isEmpty = false := by
+      obtain ⟨r, rfl⟩ := hpre
+      simp
+    rcases hm.1 with (hE | hE) | hE
+    · simp [hq] at hE
+    · have : t.pkg = q := by simpa using hE
+      right; rw [List.isPrefixOf_iff_prefix, this]; exact hpre
+    · right
+      rw [List.isPrefixOf_iff_prefix] at hE ⊢
+      exact hpre.trans ((List.prefix_append q [cSlash]).trans hE)
+
+/-- an exact pattern is subsumed by the recursive pattern of its own package and by `:all` there -/
+theorem exact_subsumed (l t : Label) (h : (patternFromLabel l).matches t = true) :
+    (Pattern.mk l.pkg [] true).matches t = true ∧ (Pattern.mk l.pkg allBytes false).matches t = true := by
+  simp only [patternFromLabel, Pattern.matches, Bool.and_eq_true, Bool.false_eq_true, if_false] at h
+  simp [Pattern.matches, h.1]
+
+example : (Pattern.mk [97] [] true).matches ⟨[97, 47, 98], [99]⟩ = true ∧
+    (Pattern.mk [97, 47, 98] [] true).matches ⟨[97, 47, 98], [99]⟩ = true := by decide
+
 end Grog.C17
